@@ -242,8 +242,8 @@ def r2_lme(ctx):
     sub = {k: bp[k] for k in ("res", "an")} if bp else {}
     CI = "$1.parameters['cov_re_unscaled_inv']"
     RI = "np.sum(?res) / (len($3) + " + CI + ".item())"
-    ok = bool(sub) and (unify(pl, ["if not $1.with_random_slope_age", "?re = {'random_intercept': " + RI + "}", "return (?re, ?res)"], sub) is not None
-                        or unify(pl, ["if not $1.with_random_slope_age", "?ri = " + RI, "?re = {'random_intercept': ?ri}", "return (?re, ?res)"], sub) is not None)
+    ok = bool(sub) and (unify(pl, ["?re = {'random_intercept': " + RI + "}", "return (?re, ?res)"], sub) is not None
+                        or unify(pl, ["?ri = " + RI, "?re = {'random_intercept': ?ri}", "return (?re, ?res)"], sub) is not None)
     joined = "; ".join(pl)
     ctx.form("C20.R2", p, p.node, joined, {joined} if ok else set(), ["np.sum(", "len($3) + " + CI + ".item()", "'random_intercept'"], "intercept-only shortcut = sum(r)/(n + c)",
              "the intercept-only random effect is no longer sum(r)/(n + c)", construct="intercept-only shortcut")
@@ -262,18 +262,35 @@ def r2_lme(ctx):
         cfgp = CFG(p.node)
         defs_re = [(n_, st_) for n_, st_ in cfgp.stmt.items() if isinstance(st_, ast.Assign) and isinstance(st_.targets[0], ast.Name) and cp_.text(st_.targets[0], False, cp_.last_order) == br["re"]]
         extra_guards = []
+        wrong_arm = []
         for n_, st_ in defs_re:
             for h_, lab_ in cfgp.if_guards(n_):
                 g_ = cp_.text(cfgp.stmt[h_].test, True, cp_.last_order)
                 if g_ not in ("not $1.with_random_slope_age", "$1.with_random_slope_age"):
                     extra_guards.append((st_, g_))
+                elif (lab_ == (g_ == "$1.with_random_slope_age")) != ("'random_slope_age'" in cp_.text(st_.value, False, cp_.last_order)):
+                    wrong_arm.append(st_)
+        if wrong_arm:
+            ctx.violation("C20.R2", p, wrong_arm[0], "the two estimators are exchanged: the intercept-only estimate is used for a model with a random slope and vice versa", construct="closed set of estimators")
         ctx.check(len(defs_re) == 2 and not extra_guards, "C20.R2", p, defs_re[0][1] if defs_re else p.node, "two estimators, selected by with_random_slope_age alone",
                   (f"the random effects of an individual also depend on `{extra_guards[0][1][:80]}`: for the individuals it selects they are not the conditional means given the fitted variance components"
                    if extra_guards else f"{len(defs_re)} definitions of the returned random effects (2 expected: intercept only / intercept and slope)"), construct="closed set of estimators")
     ok = "$3, $2 = $0._remove_nans($3, $2)" in pl
     ctx.check(ok, "C20.R2", p, p.node, "missing values dropped together with their ages", "missing values are no longer dropped (with their ages) before computing residuals", construct="NaN removal")
     t = readers[1]
-    ok = bt is not None and unify(tl, ["if not $0.with_random_slope_age", "?re = np.array([$2['random_intercept'].item(), 0])", "?re = np.array([$2['random_intercept'].item(), $2['random_slope_age'].item()])"], {"re": bt["re"]}) is not None
+    ok = False
+    if bt is not None:
+        # which value under which arm (control dependence, so the orientation of the test does not matter)
+        ct_ = Canon(t.node)
+        ct_.lines(True, True)
+        cfgt = CFG(t.node)
+        arms = {}
+        for n_, st_ in cfgt.stmt.items():
+            if isinstance(st_, ast.Assign) and isinstance(st_.targets[0], ast.Name) and ct_.text(st_.targets[0], False, ct_.last_order) == bt["re"]:
+                gs_ = [(ct_.text(cfgt.stmt[h_].test, True, ct_.last_order), lab_) for h_, lab_ in cfgt.if_guards(n_)]
+                arms[ct_.text(st_.value, False, ct_.last_order)] = gs_
+        ok = arms == {"np.array([$2['random_intercept'].item(), 0])": [("$0.with_random_slope_age", False)],
+                      "np.array([$2['random_intercept'].item(), $2['random_slope_age'].item()])": [("$0.with_random_slope_age", True)]}
     ctx.check(ok, "C20.R2", t, t.node, "random slope forced to 0 when the model has none", "the random slope is not forced to 0 for an intercept-only model", construct="no-slope case")
     ok = bf is not None and "if $1.with_random_slope_age" in fl
     ctx.check(ok, "C20.R2", fit, fit.node, "random-effects design = X with a random slope, intercept only otherwise", "the random-effects design of the fit changed", construct="random-effects design")
